@@ -250,16 +250,16 @@ def builder_names(ctx, rng, count):
     for t in range(count):
         a, b, c = rng.randint(1, 3), rng.randint(1, 3), rng.randint(1, 4)
         f = y[0] ** a + y[1] ** b - c * y[0] * y[1] + rng.randint(0, 2)
-        g = [3 - y[0] - y[1], y[0] - 0.1]
+        g = [3 - y[0] - y[1], y[0] - 0.1, y[1] - 0.2]          # two constraints of the same shape (2 terms)
         p = x[0] ** (2 * a) + x[1] ** 2 - c * x[0] * x[1] + 1
-        gp = [4 - x[0] ** 2 - x[1] ** 2]
+        gp = [4 - x[0] ** 2 - x[1] ** 2, 1 - x[0] ** 2, 9 - x[1] ** 2]      # two constraints with n = 2, m = 2
         form = rng.choice(['primal', 'dual'])
         ell = rng.randint(0, 1)
         try:
             probs.append(('sig_relaxation', so.sig_relaxation(f, form=form, ell=ell)))
             probs.append(('sig_constrained_relaxation', so.sig_constrained_relaxation(f, g, [], form=form, p=rng.randint(0, 1), q=rng.randint(1, 2), ell=ell)))
             probs.append(('poly_relaxation', so.poly_relaxation(p, form=form, poly_ell=ell)))
-            probs.append(('poly_constrained_relaxation', so.poly_constrained_relaxation(p, gp, [], form=form, p=0, q=rng.randint(1, 2), ell=ell)))
+            probs.append(('poly_constrained_relaxation', so.poly_constrained_relaxation(p, gp, [], form=form, p=rng.randint(0, 1), q=rng.randint(1, 2), ell=ell)))
         except Exception as e:  # noqa: BLE001
             ctx.incon('builder raised %s' % type(e).__name__)
     bad = []
@@ -271,6 +271,57 @@ def builder_names(ctx, rng, count):
             dup = sorted({n for n in names if names.count(n) > 1})
             bad.append(('%s produced a Problem with duplicate Variable names %s' % (name, dup[:3]), {'builder': name}))
     return bad
+
+
+def _symmetric_values(seed):
+    """a symmetric Variable next to an ordinary one: mirrored entries share a column, the columns are those of its own scalar ids,
+    and after a solve the values land in the right object"""
+    import random
+    import sageopt.coniclifts as cl
+    rng = random.Random(seed)
+    k = rng.randint(2, 3)
+    pre = cl.Variable(shape=(rng.randint(1, 3),), name='c20pre_%d' % seed) if rng.random() < 0.5 else None
+    X = cl.Variable(shape=(k, k), name='c20X_%d' % seed, var_properties=['symmetric'])
+    y = cl.Variable(shape=(2,), name='c20y_%d' % seed)
+    M = np.array([[float(rng.randint(-3, 5)) for _ in range(k)] for _ in range(k)])
+    M = (M + M.T) / 2
+    lo = np.array([7.0, 8.0])
+    cons = [X == M, y >= lo] + ([pre >= 1.0] if pre is not None else [])
+    obj = cl.sum(y) + (cl.sum(pre) if pre is not None else 0.0)
+    prob = cl.Problem(cl.MIN, obj, cons)
+    vm = np.asarray(prob.variable_map[X.name])
+    ids = np.asarray(X.scalar_variable_ids)
+    if not np.array_equal(vm, vm.T):
+        return 'variable_map of a symmetric Variable is not symmetric: %s' % vm.tolist()
+    if len(set(vm.ravel().tolist())) != k * (k + 1) // 2 or len(set(ids.ravel().tolist())) != k * (k + 1) // 2:
+        return 'a symmetric %dx%d Variable does not have %d distinct columns: %s' % (k, k, k * (k + 1) // 2, vm.tolist())
+    other = set(np.asarray(prob.variable_map[y.name]).ravel().tolist())
+    if other & set(vm.ravel().tolist()):
+        return 'columns of the symmetric Variable %s overlap those of another Variable %s' % (vm.tolist(), sorted(other))
+    st_, val = prob.solve(solver='ECOS', verbose=False)
+    if st_ != 'solved':
+        return None
+    if not np.allclose(np.asarray(X.value, dtype=float), M, atol=1e-6):
+        return 'after solving with X == M the symmetric Variable holds %s instead of M = %s' % (np.round(np.asarray(X.value, dtype=float), 4).tolist(), M.tolist())
+    if not np.allclose(np.asarray(y.value, dtype=float), lo, atol=1e-5):
+        return 'after solving, y holds %s instead of %s' % (np.asarray(y.value, dtype=float).tolist(), lo.tolist())
+    return None
+
+
+def symmetric_stream(ctx, rng, count):
+    out = []
+    for _ in range(count):
+        seed = rng.randrange(1 << 30)
+        kind, res = common.forked(_symmetric_values, seed, timeout=120)
+        ctx.case({'stream': 'symmetric-values', 'seed': seed})
+        ctx.count('stream:symmetric-values')
+        if kind == 'exception':
+            out.append(('building / solving a model with a symmetric Variable raised: %s' % res, {'symmetric_seed': seed}))
+        elif kind != 'ok':
+            ctx.incon('symmetric: solver %s' % kind)
+        elif res:
+            out.append((res, {'symmetric_seed': seed}))
+    return out
 
 
 def run(ctx):
@@ -327,6 +378,8 @@ def run(ctx):
     ctx.extra['fresh_interpreter_sessions'] = nsess
     for what, rep in builder_names(ctx, rng, 3 if quick else 20):
         ctx.violation('names: ' + what, rep)
+    for what, rep in symmetric_stream(ctx, rng, 6 if quick else 60):
+        ctx.violation('symmetric: ' + what, rep)
     if (not ctx.lean.ok or ctx.disagreements) and not ctx.violations:
         common.broken_report(ctx, 'identity oracles found no failing history among %d' % len(hists))
     return ctx.finish(
